@@ -21,7 +21,11 @@ EXPLANATION = "symbolic execution of pack and unpack_ldap_message on symbolic fi
 
 
 def units(tier):
-    return [{"name": n, "shape": {"skel": s}} for n, s in msgs.skeletons(tier)]
+    us = [{"name": n, "shape": {"skel": s}} for n, s in msgs.skeletons(tier)]
+    for n, s in msgs.skeletons(tier):
+        if n in ("bind_request_simple", "search_done_refNone", "extended_request_v1", "search_entry_1_2", "unbind"):
+            us.append({"name": "afterfail_" + n, "shape": {"skel": s, "after_failure": True}})
+    return us
 
 
 def body(ctx, shape):
@@ -47,3 +51,16 @@ def body(ctx, shape):
     except Exception as e:  # noqa: BLE001
         ctx.fail("repack-raises", f"{type(e).__name__}@{exc_site(e)}")
     ctx.require(ctx.eq(b2, b), "reencode-differs")
+    if shape.get("after_failure"):
+        # pack() is a function of the message: an earlier pack() that failed half-way (a value of
+        # the wrong type deep inside another message) must leave nothing behind
+        bad = M.SearchResultEntry(7, [], "cn=x", [M.PartialAttribute("a", [b"ok", "not-bytes"])])
+        try:
+            bad.pack(opts)
+        except Exception:  # noqa: BLE001
+            pass
+        try:
+            b3 = m.pack(opts)
+        except Exception as e:  # noqa: BLE001
+            ctx.fail("pack-after-failed-pack-raises", f"{type(e).__name__}@{exc_site(e)}")
+        ctx.require(ctx.eq(b3, b), "pack-after-a-failed-pack-differs")
